@@ -10,7 +10,18 @@
 //!      flattened array", "position of the extreme").
 //! Every case is executed three times: the plain call, the plain call again (same answer required) and the chained call on
 //! `Ok(array)` through `impl … for Result<Array<T>, ArrayError>` (same answer required).
+//! Part 2 (after the third round of seeded changes):
+//!  * native lane-membership reference `native_map` (plain coordinate arithmetic: which input positions form the lane of an
+//!    output position, and the result shape).  It is compared with the MODEL's answer on every case the model answers
+//!    (non-empty arrays) — the `refstats` line at the end of a run reports how many — and replaces the model on the `ref` cases
+//!    (seventh token `ref`: 16 384 … 140 000 elements, more than 8192 lanes, an axis above 65 536, axis lengths 121..300 in an
+//!    inner position), for which the quadratic list-backed model would need minutes.  Chain: model -> reference -> crate.
+//!  * hidden state: shapes that collide under weak polynomial / packed / order-blind keys back to back in both orders on one
+//!    thread, value sets that are permutations / one-ulp neighbours of one another, failing calls directly followed by valid ones,
+//!    and the A-B-A discipline in `exec` (after case B the previous case A is run again and must answer as before).
+//!  * every lane length 1..300 in trailing and inner position; ranks 7 and 8.
 use arrharness::*;
+use std::cell::{Cell, RefCell};
 use std::cmp::Ordering;
 use std::panic::{catch_unwind, AssertUnwindSafe};
 
@@ -24,8 +35,11 @@ const EXTREME: [&str; 6] = ["max", "min", "nanmax", "nanmin", "amax", "amin"];
 const DT_OPS: [&str; 8] = ["i64", "f64", "i64b", "i8", "i16", "i32", "f64s", "f32"];              // NumericOps: every operation
 const DT_NUM: [&str; 6] = ["u64", "usize", "isize", "u8", "u16", "u32"];                           // Numeric: extrema + count family
 const DT_ANY: [&str; 2] = ["bool", "str"];                                                         // ArrayElement: count family
+/// hidden-state value classes (only in the part-2 streams): the `i64` / `f64` values of the same seed REVERSED (same multiset,
+/// same sum / xor / product), or with ONE element moved by one (i64) / by one ulp (f64)
+const DT_HID: [&str; 4] = ["i64r", "i64n", "f64r", "f64n"];
 fn applicable(op: &str, dt: &str) -> bool {
-    if DT_OPS.contains(&dt) { return true; }
+    if DT_OPS.contains(&dt) || DT_HID.contains(&dt) { return true; }
     if DT_NUM.contains(&dt) { return EXTREME.contains(&op) || COUNT.contains(&op); }
     DT_ANY.contains(&dt) && COUNT.contains(&op)
 }
@@ -161,6 +175,10 @@ fn gen_vals<T: Val>(dt: &str, n: usize, vseed: u64, op: &str) -> Vec<T> {
     match dt {
         "i64" => vals_i64(n, vseed, op.contains("prod")).into_iter().map(|x| T::of_int(x as i128)).collect(),
         "f64" => vals_f64(n, vseed).into_iter().map(T::of_f64).collect(),
+        "i64r" => vals_i64(n, vseed, op.contains("prod")).into_iter().rev().map(|x| T::of_int(x as i128)).collect(),
+        "i64n" => { let mut v = vals_i64(n, vseed, op.contains("prod")); if n > 0 { v[(vseed as usize / 7) % n] += 1; } v.into_iter().map(|x| T::of_int(x as i128)).collect() }
+        "f64r" => vals_f64(n, vseed).into_iter().rev().map(T::of_f64).collect(),
+        "f64n" => { let mut v = vals_f64(n, vseed); if n > 0 { let k = (vseed as usize / 7) % n; if v[k].is_finite() && v[k] != 0.0 && v[k].abs() < 1e299 { v[k] = f64::from_bits(v[k].to_bits() + 1); } } v.into_iter().map(T::of_f64).collect() }
         "bool" | "str" => { let mut r = Rng::new(vseed ^ 0x57); (0..n).map(|_| T::of_int(r.below(12) as i128)).collect() }
         _ if T::FLOAT => vals_flt(n, vseed, T::SINGLE).into_iter().map(T::of_f64).collect(),
         _ => vals_int(n, vseed, op, T::LO, T::HI).into_iter().map(T::of_int).collect(),
@@ -283,30 +301,286 @@ fn gen(tier: &str, seed: u64, out: &mut dyn FnMut(String)) {
         let kd = if COUNT.contains(&op) { *rng.pick(&kd_all) } else { "none" };
         out(format!("{op} {dt} {} {ax} {kd} {}", tag(&s), rng.next() % 30000));
     }
+    gen_part2(thorough, &mut rng, out);
+}
+
+// ---------------------------------------------------------------- gen, part 2
+
+/// groups of same-rank shapes that collide under a key a per-shape cache could plausibly use
+fn c08_collision_groups(thorough: bool) -> Vec<Vec<Vec<usize>>> {
+    let mut g: Vec<Vec<Vec<usize>>> = vec![];
+    // equal rank, equal ELEMENT COUNT and equal polynomial hash `h = h*m + d` (any start value): [c+k, c*m] and [c, (c+k)*m]
+    // (a cached index plan that is only checked for its length is reused for the sibling)
+    for &m in &[31usize, 33, 37, 131, 257, 256] {
+        for (c, k) in [(1usize, 1usize), (2, 1), (1, 2)] {
+            let (a, b) = (vec![c + k, c * m], vec![c, (c + k) * m]);
+            g.push(vec![a.clone(), b.clone()]);
+            if m <= 37 && (k == 1 || thorough) {
+                g.push(vec![[vec![3], a.clone()].concat(), [vec![3], b.clone()].concat()]);
+                g.push(vec![[a.clone(), vec![2]].concat(), [b.clone(), vec![2]].concat()]);
+            }
+        }
+    }
+    // the pairs of lib.rs (equal hash, different element counts)
+    for (a, b) in collision_shape_pairs() { g.push(vec![a, b]); }
+    // order-blind keys (element count + rank, sum / product / xor of the axis lengths, sorted axis lengths)
+    g.push(vec![vec![2, 3, 4], vec![4, 3, 2], vec![3, 4, 2], vec![2, 4, 3], vec![4, 2, 3], vec![2, 2, 6]]);
+    g.push(vec![vec![2, 6], vec![6, 2], vec![3, 4], vec![4, 3], vec![1, 12], vec![12, 1]]);
+    g.push(vec![vec![16, 17], vec![17, 16], vec![8, 34], vec![34, 8]]);
+    g.push(vec![vec![1, 5, 7], vec![7, 5, 1], vec![5, 1, 7], vec![5, 7, 1]]);
+    // packed keys: the axis lengths agree modulo 2^8
+    g.push(vec![vec![2, 3], vec![2, 259], vec![258, 3]]);
+    g.push(vec![vec![3, 2, 4], vec![3, 258, 4], vec![3, 2, 260]]);
+    g
+}
+
+/// the operations of the three families, rotating; element type rotating among those every operation of the pick accepts
+fn pick_ops(k: usize) -> [(&'static str, &'static str); 3] {
+    let r = REDUCE[k % REDUCE.len()];
+    let c = COUNT[k % COUNT.len()];
+    let sc = SCAN[k % SCAN.len()];
+    let dr = if EXTREME.contains(&r) { ["i64", "f64", "u8", "i64b", "f32", "u64"][k % 6] } else { ["i64", "f64", "i32", "f64s"][k % 4] };
+    let dc = ["i64", "u8", "f64", "str", "bool", "i8"][k % 6];
+    let ds = ["i64", "f64", "i16", "f64s"][k % 4];
+    [(r, dr), (c, dc), (sc, ds)]
+}
+
+/// keep a pick affordable: String arrays are slow in the crate (beyond 64 elements: i64 instead), and the 1-D argmax / argmin sort
+/// the lane with a quicksort that is quadratic on repeated values (lanes beyond 5000: count_nonzero instead)
+fn fit(op: &'static str, dt: &'static str, shape: &[usize], ax: &str) -> (&'static str, &'static str) {
+    let n: usize = shape.iter().product();
+    let lane = match ax.parse::<isize>() { Ok(a) => { let k = if a < 0 { a + shape.len() as isize } else { a }; if k >= 0 && (k as usize) < shape.len() { shape[k as usize] } else { 1 } } Err(_) => n };
+    let dt = if dt == "str" && n > 64 { "i64" } else { dt };
+    if (op == "argmax" || op == "argmin") && lane > 5000 { ("count_nonzero", dt) } else { (op, dt) }
+}
+
+fn gen_part2(thorough: bool, rng: &mut Rng, out: &mut dyn FnMut(String)) {
+    let kd_all = ["none", "true", "false"];
+    let mut k = 0usize;
+    // ---- (6a) hidden state: colliding shapes back to back, in both orders, the same axis, every family
+    for (gi, g) in c08_collision_groups(thorough).into_iter().enumerate() {
+        let nd = g[0].len() as isize;
+        // the model is quadratic: groups with a member above 600 elements take one axis and one family (rotating) in the quick tier
+        let heavy = !thorough && g.iter().any(|s| s.iter().product::<usize>() > 600);
+        for a in 0..nd {
+            k += 1;
+            if heavy && a != gi as isize % nd { continue; }
+            let ax = if k % 2 == 0 { a } else { a - nd };
+            for (fi, (op, dt)) in pick_ops(k).into_iter().enumerate() {
+                if heavy && fi != (gi / 2) % 3 { continue; }
+                let kd = if COUNT.contains(&op) { kd_all[k % 3] } else { "none" };
+                let vs = rng.next() % 30000;
+                // g0 g1 .. gn g0 | gn .. g1 g0 g1  (every member directly after every neighbour, both orders)
+                let mut seq: Vec<&Vec<usize>> = g.iter().collect();
+                seq.push(&g[0]);
+                seq.extend(g.iter().rev().skip(1));
+                seq.push(&g[1]);
+                for (i, s) in seq.iter().enumerate() { let (op, dt) = fit(op, dt, s, &ax.to_string()); out(format!("{op} {dt} {} {ax} {kd} {}", tag(s), vs + (i as u64 % 2))); }
+            }
+        }
+    }
+    // 16-bit packed keys: [2,3] and [2,65539] (131 078 elements, reference cases; only the axis with two lanes — the crate's
+    // lane splitting is quadratic in the number of lanes)
+    for (small, huge, ax) in [(vec![2usize, 3], vec![2usize, 65539], "1"), (vec![3, 2], vec![65539, 2], "-2")] {
+        for (op, dt) in [("sum", "i64"), ("count_nonzero", "u8"), ("max", "f64")] {
+            if !thorough && op == "max" { continue; }
+            for s in [&small, &huge, &small] {
+                let big = s.iter().product::<usize>() > 5000;
+                out(format!("{op} {dt} {} {ax} none {}{}", tag(s), rng.next() % 30000, if big { " ref" } else { "" }));
+            }
+        }
+    }
+    // ---- (6b) hidden state keyed by the VALUES: the same shape with the values reversed (same multiset / sum / xor), and with one
+    //      element moved by one / one ulp, between two runs of the original
+    let ops: Vec<&str> = REDUCE.iter().chain(COUNT.iter()).chain(SCAN.iter()).copied().collect();
+    let mut vshapes = vec![vec![6usize], vec![2, 3], vec![3, 4], vec![2, 3, 4]];
+    if thorough { vshapes.extend([vec![4, 1, 5], vec![31], vec![2, 2, 2, 2]]); }
+    for s in &vshapes {
+        let nd = s.len() as isize;
+        let mut axes = vec!["none".to_string(), (nd - 1).to_string(), (-nd).to_string()];
+        if thorough { axes = axes_of(nd); }
+        for op in &ops { for ax in &axes {
+            let vs = (rng.next() % 1000) * 3 + 1;      // f64: with NaN
+            let kd = if COUNT.contains(op) { kd_all[(vs % 3) as usize] } else { "none" };
+            for dt in ["i64", "i64r", "i64", "i64n", "i64", "f64", "f64r", "f64", "f64n", "f64"] { out(format!("{op} {dt} {} {ax} {kd} {vs}", tag(s))); }
+        } }
+    }
+    // ---- (6c) a failing call (axis outside the rank) directly followed by a valid call on the same shape, alternating
+    for s in [vec![5usize], vec![2, 3], vec![3, 4, 2], vec![2, 31], vec![1, 62], vec![2, 1, 2, 3]] {
+        let nd = s.len() as isize;
+        for (i, op) in ops.iter().enumerate() {
+            let dt = ["i64", "f64"][i % 2];
+            let kd = if COUNT.contains(op) { kd_all[i % 3] } else { "none" };
+            let good = [(i as isize) % nd, (i as isize) % nd - nd];
+            for (j, bad) in [nd, -nd - 1, nd + 1 + i as isize].iter().enumerate() {
+                let vs = rng.next() % 3000;
+                out(format!("{op} {dt} {} {bad} {kd} {vs}", tag(&s)));
+                out(format!("{op} {dt} {} {} {kd} {vs}", tag(&s), good[j % 2]));
+            }
+        }
+    }
+    // ---- (8) exact lengths: EVERY lane length 1..300 in the trailing position ([2,d]) and in an inner position ([3,d,2]).
+    //      [2,d]: both axes; one family per (d, axis) is tied to the model (rotating, so three consecutive lengths cover all), the
+    //      other two go to the native reference.  [3,d,2] axis 1: model up to d = 120 (the model needs ~d^2), reference above.
+    for d in 1..=300usize {
+        for (ai, ax) in ["1", "0", "-1", "-2"].iter().enumerate() {
+            if ai >= 2 && !thorough && d % 4 != 0 { continue; }
+            k += 1;
+            for (fi, (op, dt)) in pick_ops(k).iter().enumerate() {
+                let (op, dt) = &fit(op, dt, &[2, d], ax);
+                let kd = if COUNT.contains(op) { kd_all[(d + ai) % 3] } else { "none" };
+                let model = fi == (d + ai) % 3;
+                out(format!("{op} {dt} {} {ax} {kd} {}{}", tag(&[2, d]), rng.next() % 30000, if model { "" } else { " ref" }));
+            }
+        }
+        k += 1;
+        let inner_model = d <= if thorough { 200 } else { 120 };
+        for (fi, (op, dt)) in pick_ops(k).iter().enumerate() {
+            let (op, dt) = &fit(op, dt, &[3, d, 2], "1");
+            let kd = if COUNT.contains(op) { kd_all[d % 3] } else { "none" };
+            let model = inner_model && fi == d % 3;
+            out(format!("{op} {dt} {} {} {kd} {}{}", tag(&[3, d, 2]), if d % 2 == 0 { "1" } else { "-2" }, rng.next() % 30000, if model { "" } else { " ref" }));
+        }
+    }
+    // ---- (10) ranks 7 and 8 (the enumeration stops at rank 4/5, the random stream at 6)
+    let mut high = vec![vec![2usize; 7], vec![2; 8], vec![1, 2, 1, 2, 1, 2, 1, 2], vec![2, 1, 1, 3, 1, 1, 2], vec![3, 1, 2, 1, 2, 1, 1, 2]];
+    if thorough { high.extend([vec![2, 3, 2, 1, 2, 3, 2], vec![2, 2, 3, 2, 2, 1, 2, 2]]); }
+    for s in &high {
+        let nd = s.len() as isize;
+        for a in 0..nd { for ax in [a, a - nd] {
+            k += 1;
+            for (op, dt) in pick_ops(k) {
+                let kds: Vec<&str> = if COUNT.contains(&op) { kd_all.to_vec() } else { vec!["none"] };
+                for kd in kds { out(format!("{op} {dt} {} {ax} {kd} {}", tag(s), rng.next() % 30000)); }
+            }
+        } }
+        for (op, dt) in pick_ops(k + 1) { out(format!("{op} {dt} {} none {} {}", tag(s), if COUNT.contains(&op) { "true" } else { "none" }, rng.next() % 30000)); }
+        for bad in [nd, -nd - 1] { out(format!("sum i64 {} {bad} none 0", tag(s))); out(format!("argmin i64 {} {bad} true 0", tag(s))); }
+    }
+    // ---- (7) huge sizes: native reference cases (seventh token `ref`).  (a) more than 8192 lanes of length >= 2 (a batched walk
+    //      over the lanes), the boundary 8192 / 8193; the crate needs ~0.1 s per call at 9000 lanes (quadratic in the number of
+    //      lanes), so axes that give more than ~20 000 lanes are left out;  (b) `huge_shapes()` of lib.rs on the axes with at most
+    //      ~300 lanes and with `none`
+    let many: Vec<(Vec<usize>, Vec<&str>)> = vec![
+        (vec![9000, 3], vec!["1", "-1"]), (vec![100, 2, 90], vec!["-2", "1"]), (vec![3, 9000], vec!["0", "-2"]), (vec![8193, 2], vec!["1"]),
+        (vec![2, 8193], vec!["0"]), (vec![8192, 2], vec!["-1"]), (vec![91, 2, 91], vec!["1"])];
+    for (s, axes) in &many { for ax in axes {
+        let reps = if thorough { 4 } else { 1 };
+        for _ in 0..reps {
+            k += 1;
+            for (op, dt) in pick_ops(k) {
+                let (op, dt) = fit(op, dt, s, ax);
+                let kd = if COUNT.contains(&op) { kd_all[k % 3] } else { "none" };
+                out(format!("{op} {dt} {} {ax} {kd} {} ref", tag(s), rng.next() % 30000));
+            }
+        }
+    } }
+    let mut few: Vec<(Vec<usize>, Vec<&str>)> = vec![
+        (vec![9000, 3], vec!["0", "none"]), (vec![100, 2, 90], vec!["0"]), (vec![16385], vec!["0", "none"]), (vec![130, 130], vec!["0", "1"]), (vec![129, 131], vec!["-1", "-2"]),
+        (vec![100, 200], vec!["0", "-1"]), (vec![33000], vec!["-1"]), (vec![70000], vec!["0", "none"]), (vec![2, 70000], vec!["1", "none"]), (vec![70000, 2], vec!["0"]),
+        (vec![40, 30, 30], vec!["0", "1", "2"]), (vec![10, 11, 12, 13], vec!["0", "-3", "2", "-1"]), (vec![5, 4, 10, 10, 10], vec!["0", "1", "-3", "3", "4"]), (vec![300, 300], vec!["0", "1"])];
+    if thorough { few.extend([(vec![140001], vec!["0"]), (vec![7, 131, 151], vec!["0", "1", "2"]), (vec![1, 66000, 2, 1], vec!["1", "0", "3"]), (vec![20000, 2], vec!["1"]), (vec![3, 5, 7, 11, 13, 2], vec!["0", "2", "4", "-1"])]); }
+    for (s, axes) in &few { for ax in axes {
+        let reps = if thorough { 3 } else { 1 };
+        for _ in 0..reps {
+            k += 1;
+            for (op, dt) in pick_ops(k) {
+                let (op, dt) = fit(op, dt, s, ax);
+                let kd = if COUNT.contains(&op) { kd_all[k % 3] } else { "none" };
+                out(format!("{op} {dt} {} {ax} {kd} {} ref", tag(s), rng.next() % 30000));
+            }
+        }
+    } }
+    // the last line of a run: how many times the native reference was compared with the model / used in its place
+    out("refstats".to_string());
 }
 
 // ---------------------------------------------------------------- exec
 
-/// model answer -> (shape, per output position (position inside the lane, lane id), lanes)
-fn parse_lanes(s: &str) -> Option<(Vec<usize>, Vec<(usize, usize)>, Vec<Vec<usize>>)> {
+/// lane map of an answer: result shape, per output position (position inside the lane, lane id), and the lanes (input
+/// positions), numbered in the order of their first occurrence in the output
+#[derive(PartialEq)]
+struct LaneMap { shape: Vec<usize>, outs: Vec<(usize, usize)>, lanes: Vec<Vec<usize>> }
+
+/// model answer -> lane map
+fn parse_lanes(s: &str, scan: bool) -> Option<LaneMap> {
     let (sh, body) = s.split_once(':')?;
     let shape = parse_usize_list(sh);
     let mut lanes: Vec<Vec<usize>> = vec![];
     let mut outs: Vec<(usize, usize)> = vec![];
-    let mut lane_of_out: Vec<usize> = vec![];
     if body != "-" {
         for el in body.split('|') {
             if let Some((j, k)) = el.split_once('=') {
-                let id = *lane_of_out.get(k.parse::<usize>().ok()?)?;
-                outs.push((j.parse().ok()?, id)); lane_of_out.push(id);
+                let id = outs.get(k.parse::<usize>().ok()?)?.1;
+                outs.push((j.parse().ok()?, id));
             } else {
-                lanes.push(if el == "e" { vec![] } else { parse_usize_list(el) });
-                outs.push((usize::MAX, lanes.len() - 1)); lane_of_out.push(lanes.len() - 1);
+                let l = if el == "e" { vec![] } else { parse_usize_list(el) };
+                if scan { let (j, lane) = l.split_first()?; lanes.push(lane.to_vec()); outs.push((*j, lanes.len() - 1)); }
+                else { lanes.push(l); outs.push((0, lanes.len() - 1)); }
             }
         }
     }
-    Some((shape, outs, lanes))
+    Some(LaneMap { shape, outs, lanes })
 }
+
+/// NATIVE LANE-MEMBERSHIP REFERENCE: which input positions (row-major) form the lane behind every output position, and the result
+/// shape, by plain coordinate arithmetic.  `fam`: 'R' reduction, 'C' count / position query (keepdims), 'S' scan.
+/// `None`: no reference (zero-size arrays are left to the model);  `Some(Err(()))`: an error value (the axis is outside the rank; `keepdims` on the flattened form of an array of rank > 3).
+fn native_map(shape: &[usize], axis: Option<isize>, kd: Option<bool>, fam: char) -> Option<Result<LaneMap, ()>> {
+    let n: usize = shape.iter().product();
+    let nd = shape.len();
+    if n == 0 || nd == 0 { return None; }
+    let Some(ax) = axis else {
+        // the flattened form: one lane = the whole array
+        let all: Vec<usize> = (0..n).collect();
+        return Some(Ok(match fam {
+            'S' => LaneMap { shape: vec![n], outs: (0..n).map(|j| (j, 0)).collect(), lanes: vec![all] },
+            // `atleast(ndim)` refuses more than three dimensions
+            'C' if kd == Some(true) && nd > 3 => return Some(Err(())),
+            'C' if kd == Some(true) => LaneMap { shape: vec![1; nd], outs: vec![(0, 0)], lanes: vec![all] },
+            _ => LaneMap { shape: vec![1], outs: vec![(0, 0)], lanes: vec![all] },
+        }));
+    };
+    let k = if ax < 0 { ax + nd as isize } else { ax };
+    if k < 0 || k >= nd as isize { return Some(Err(())); }
+    let k = k as usize;
+    let len = shape[k];
+    let inner: usize = shape[k + 1..].iter().product();          // distance between two neighbours of a lane
+    let outer: usize = shape[..k].iter().product();
+    // lane (o, i): positions o*len*inner + j*inner + i, j = 0..len
+    let lane = |o: usize, i: usize| -> Vec<usize> { (0..len).map(|j| o * len * inner + j * inner + i).collect() };
+    Some(Ok(if fam == 'S' {
+        // shape kept; position p = (o, j, i)
+        let mut lanes = Vec::with_capacity(outer * inner);
+        let mut id_of = vec![usize::MAX; outer * inner];
+        let mut outs = Vec::with_capacity(n);
+        for p in 0..n {
+            let (o, j, i) = (p / (len * inner), p / inner % len, p % inner);
+            let key = o * inner + i;
+            if id_of[key] == usize::MAX { id_of[key] = lanes.len(); lanes.push(lane(o, i)); }
+            outs.push((j, id_of[key]));
+        }
+        LaneMap { shape: shape.to_vec(), outs, lanes }
+    } else {
+        let mut sh = shape.to_vec();
+        if fam == 'C' { if kd == Some(true) { sh[k] = 1; } else { sh.remove(k); } }
+        else if nd > 1 { sh.remove(k); } else { sh = vec![1]; }
+        let mut lanes = Vec::with_capacity(outer * inner);
+        for o in 0..outer { for i in 0..inner { lanes.push(lane(o, i)); } }
+        LaneMap { shape: sh, outs: (0..outer * inner).map(|q| (0, q)).collect(), lanes }
+    }))
+}
+
+thread_local! {
+    /// how often the native reference was compared with the model's answer in this run / used in place of the model
+    static REF_VALIDATED: Cell<usize> = Cell::new(0);
+    static REF_USED: Cell<usize> = Cell::new(0);
+    static REF_BROKEN: Cell<usize> = Cell::new(0);
+    /// A-B-A: the previous case (op, arguments, answer of its plain call)
+    static PREV: RefCell<Option<(String, Vec<String>, String)>> = RefCell::new(None);
+    static ABA_RUNS: Cell<usize> = Cell::new(0);
+}
+fn family(op: &str) -> char { if SCAN.contains(&op) { 'S' } else if COUNT.contains(&op) { 'C' } else { 'R' } }
 
 fn show_out<R: Val>(r: &Result<Array<R>, ArrayError>) -> String {
     show_res(r, |a| format!("{}:{}", show_list(&a.get_shape().unwrap()), show_list(&a.get_elements().unwrap())))
@@ -321,22 +595,21 @@ impl<R: Val> Want<R> {
     fn show(&self) -> String { match self { Want::Int(i) => i.to_string(), Want::Is(v) => v.to_string(), Want::Nan => "NaN".into() } }
 }
 
-/// compare one real result against the model's lane map: shape, consistency, then per output position the lane oracle
-/// (`lane_op`, the same real 1-D operation, bit-exact) and the native oracle (`native`: per lane the expected values, one for a
-/// reduction, one per lane position for a scan; `None` = no native reference for this operation / element type)
-fn judge<T: Val, R: Val>(vals: &[T], observed: &Result<Array<R>, ArrayError>, expected: &str, scan: bool,
+/// compare one real result against the lane map (of the model, or of the native reference on `ref` cases): shape, consistency,
+/// then per output position the lane oracle (`lane_op`, the same real 1-D operation, bit-exact) and the native oracle (`native`: per
+/// lane the expected values, one for a reduction, one per lane position for a scan; `None` = no native reference for this
+/// operation / element type)
+fn judge<T: Val, R: Val>(vals: &[T], observed: &Result<Array<R>, ArrayError>, expected: &str, map: Option<&LaneMap>, source: &str,
     lane_op: &dyn Fn(&Array<T>) -> Result<Array<R>, ArrayError>, native: &dyn Fn(&[T]) -> Option<Vec<Want<R>>>) -> Verdict {
     let obs_text = show_out(observed);
-    if !expected.starts_with("ok ") { return compare_default(obs_text, expected); }
-    let (shape, outs, lanes) = match parse_lanes(&expected[3..]) { Some(x) => x, None => return Verdict::Mismatch { observed: obs_text, detail: "unparsable model answer".into() } };
+    let Some(map) = map else { return compare_default(obs_text, expected) };
+    let (shape, outs, lanes) = (&map.shape, &map.outs, &map.lanes);
     // lane values and the 1-D operation on each distinct lane, once
     let mut lane_vals: Vec<Vec<T>> = Vec::with_capacity(lanes.len());
     let mut lane_res: Vec<Result<Vec<R>, String>> = Vec::with_capacity(lanes.len());
-    for l in &lanes {
-        if scan && l.is_empty() { return Verdict::Mismatch { observed: obs_text, detail: "unparsable model answer (empty scan element)".into() } }
-        let idxs: &[usize] = if scan { &l[1..] } else { &l[..] };
-        if idxs.iter().any(|&t| t >= vals.len()) { return Verdict::Mismatch { observed: obs_text, detail: "model names an input position outside the array".into() } }
-        let lv: Vec<T> = idxs.iter().map(|&t| vals[t].clone()).collect();
+    for l in lanes {
+        if l.iter().any(|&t| t >= vals.len()) { return Verdict::Mismatch { observed: obs_text, detail: format!("{source} names an input position outside the array") } }
+        let lv: Vec<T> = l.iter().map(|&t| vals[t].clone()).collect();
         let lane_arr = Array::new(lv.clone(), vec![lv.len()]).unwrap();
         lane_res.push(match catch_unwind(AssertUnwindSafe(|| lane_op(&lane_arr))) {
             Ok(Ok(r)) => Ok(r.get_elements().unwrap()),
@@ -345,26 +618,25 @@ fn judge<T: Val, R: Val>(vals: &[T], observed: &Result<Array<R>, ArrayError>, ex
         });
         lane_vals.push(lv);
     }
-    let idx_text = |id: usize| truncate(&show_list(if scan { &lanes[id][1..] } else { &lanes[id][..] }), 300);
+    let idx_text = |id: usize| truncate(&show_list(&lanes[id]), 300);
     let arr = match observed {
         Ok(a) => a,
         // the model runs a lane-collecting body that always succeeds; the real 1-D body may refuse a lane (max / argmax of an
         // empty lane): then, and only then, the refusal of the array operation is the lane-wise answer
         Err(_) => return match lane_res.iter().position(|r| matches!(r, Err(m) if m.starts_with("fails"))) {
             Some(_) => Verdict::Match(obs_text),
-            None => Verdict::Mismatch { observed: obs_text, detail: format!("model says `{}` and the 1-D operation succeeds on every lane", truncate(expected, 200)) },
+            None => Verdict::Mismatch { observed: obs_text, detail: format!("{source} says `{}` and the 1-D operation succeeds on every lane", truncate(expected, 200)) },
         },
     };
     if let Some(id) = lane_res.iter().position(|r| r.is_err()) {
         return Verdict::Mismatch { detail: format!("1-D operation on lane {} {}, array operation returned a value", idx_text(id), lane_res[id].as_ref().err().unwrap()), observed: obs_text };
     }
     if !consistent(arr) { return Verdict::Mismatch { observed: obs_text, detail: "result violates shape/length consistency".into() } }
-    if arr.get_shape().unwrap() != shape { return Verdict::Mismatch { observed: obs_text, detail: format!("shape differs: theorem says {:?}", shape) } }
+    if &arr.get_shape().unwrap() != shape { return Verdict::Mismatch { observed: obs_text, detail: format!("shape differs: theorem says {:?}", shape) } }
     let got = arr.get_elements().unwrap();
     if got.len() != outs.len() { return Verdict::Mismatch { observed: obs_text, detail: "element count differs".into() } }
     let lane_nat: Vec<Option<Vec<Want<R>>>> = lane_vals.iter().map(|lv| native(lv)).collect();
-    for (p, &(j0, id)) in outs.iter().enumerate() {
-        let j = if scan { if j0 == usize::MAX { lanes[id][0] } else { j0 } } else { 0 };
+    for (p, &(j, id)) in outs.iter().enumerate() {
         let want = lane_res[id].as_ref().ok().unwrap();
         if j >= want.len() || !want[j].same(&got[p]) {
             return Verdict::Mismatch { detail: format!("output position {p}: lane = input positions {}; 1-D operation on that lane gives {} there, array operation returned {}", idx_text(id),
@@ -422,14 +694,18 @@ fn finish<R: Val>(p1: Caught<R>, p2: Caught<R>, ch: Caught<R>, expected: &str, j
     if let Verdict::Match(t) = &v {
         let alike = |x: &str| x == t || (class_of(x) == "err" && class_of(t) == "err");
         let (t2, tc) = (text_of(&p2), text_of(&ch));
-        if !alike(&t2) { return Verdict::Mismatch { observed: t.clone(), detail: format!("the same call a second time answers `{}`", truncate(&t2, 300)) }; }
+        if !alike(&t2) { return Verdict::Mismatch { observed: truncate(t, 2000), detail: format!("the same call a second time answers `{}`", truncate(&t2, 300)) }; }
         if !alike(&tc) {
             // is the chained answer at least what the model + lane oracle accept?  (only for the report)
-            return Verdict::Mismatch { observed: format!("chained: {}", tc), detail: format!("RECEIVER-DIVERGENCE: the chained call on Ok(array) (impl … for Result<Array<T>, ArrayError>) answers `{}`, the plain call `{}`", truncate(&tc, 300), truncate(t, 300)) };
+            return Verdict::Mismatch { observed: format!("chained: {}", truncate(&tc, 2000)), detail: format!("RECEIVER-DIVERGENCE: the chained call on Ok(array) (impl … for Result<Array<T>, ArrayError>) answers `{}`, the plain call `{}`", truncate(&tc, 300), truncate(t, 300)) };
         }
+        // remember the full answer of the plain call for the A-B-A re-run
+        LAST_PLAIN.with(|l| *l.borrow_mut() = Some(t.clone()));
+        return Verdict::Match(truncate(t, 3000));
     }
     v
 }
+thread_local! { static LAST_PLAIN: RefCell<Option<String>> = RefCell::new(None); }
 
 macro_rules! three { ($a:ident, $T:ty, |$x:ident| $e:expr) => {{
     let p1 = catch_unwind(AssertUnwindSafe(|| { let $x = &$a; $e }));
@@ -437,8 +713,15 @@ macro_rules! three { ($a:ident, $T:ty, |$x:ident| $e:expr) => {{
     let ch = catch_unwind(AssertUnwindSafe(|| { let r: Result<Array<$T>, ArrayError> = Ok($a.clone()); let $x = &r; $e }));
     (p1, p2, ch)
 }} }
+/// probe mode (A-B-A): only the plain call, its answer text
+macro_rules! probe { ($a:ident, |$x:ident| $e:expr) => {{
+    let p1 = catch_unwind(AssertUnwindSafe(|| { let $x = &$a; $e }));
+    return Some(Verdict::Match(text_of(&p1)));
+}} }
 
-struct Case<'a> { op: &'a str, dt: &'a str, shape: Vec<usize>, axis: Option<isize>, kd: Option<bool>, vseed: u64, expected: &'a str }
+/// `map`: the lane map the result is judged by (`None`: the expected outcome is an error / not a lane answer: outcome classes are
+/// compared); `source`: who says so (the model, or the native reference on `ref` cases); `probe`: only run the plain call
+struct Case<'a> { op: &'a str, dt: &'a str, shape: Vec<usize>, axis: Option<isize>, kd: Option<bool>, vseed: u64, expected: &'a str, map: Option<LaneMap>, source: &'a str, probe: bool }
 
 fn run_any<T: Val>(c: &Case) -> Option<Verdict> {
     let n: usize = c.shape.iter().product();
@@ -446,8 +729,9 @@ fn run_any<T: Val>(c: &Case) -> Option<Verdict> {
     let a = Array::new(vals.clone(), c.shape.clone()).unwrap();
     let (axis, kd, op, expected) = (c.axis, c.kd, c.op, c.expected);
     macro_rules! cnt { ($m:ident, $tr:ident) => {{
+        if c.probe { probe!(a, |x| $tr::$m(x, axis, kd)) }
         let (p1, p2, ch) = three!(a, T, |x| $tr::$m(x, axis, kd));
-        finish(p1, p2, ch, expected, &|r| judge(&vals, r, expected, false, &|l: &Array<T>| $tr::$m(l, None, None), &|lane| native_cnt(op, lane)))
+        finish(p1, p2, ch, expected, &|r| judge(&vals, r, expected, c.map.as_ref(), c.source, &|l: &Array<T>| $tr::$m(l, None, None), &|lane| native_cnt(op, lane)))
     }} }
     Some(match op { "count_nonzero" => cnt!(count_nonzero, ArrayCount), "argmax" => cnt!(argmax, ArraySearch), "argmin" => cnt!(argmin, ArraySearch), _ => return None })
 }
@@ -458,8 +742,9 @@ fn run_num<T: Val + Numeric>(c: &Case) -> Option<Verdict> {
     let a = Array::new(vals.clone(), c.shape.clone()).unwrap();
     let (axis, op, expected) = (c.axis, c.op, c.expected);
     macro_rules! red { ($m:ident) => {{
+        if c.probe { probe!(a, |x| ArrayExtrema::$m(x, axis)) }
         let (p1, p2, ch) = three!(a, T, |x| ArrayExtrema::$m(x, axis));
-        finish(p1, p2, ch, expected, &|r| judge(&vals, r, expected, false, &|l: &Array<T>| ArrayExtrema::$m(l, None), &|lane| native_val(op, lane)))
+        finish(p1, p2, ch, expected, &|r| judge(&vals, r, expected, c.map.as_ref(), c.source, &|l: &Array<T>| ArrayExtrema::$m(l, None), &|lane| native_val(op, lane)))
     }} }
     Some(match op { "max" => red!(max), "min" => red!(min), "nanmax" => red!(nanmax), "nanmin" => red!(nanmin), "amax" => red!(amax), "amin" => red!(amin), _ => return None })
 }
@@ -469,38 +754,101 @@ fn run_ops<T: Val + NumericOps>(c: &Case) -> Option<Verdict> {
     let vals: Vec<T> = gen_vals::<T>(c.dt, n, c.vseed, c.op);
     let a = Array::new(vals.clone(), c.shape.clone()).unwrap();
     let (axis, op, expected) = (c.axis, c.op, c.expected);
-    macro_rules! red { ($m:ident, $scan:expr) => {{
+    macro_rules! red { ($m:ident) => {{
+        if c.probe { probe!(a, |x| ArraySumProdDiff::$m(x, axis)) }
         let (p1, p2, ch) = three!(a, T, |x| ArraySumProdDiff::$m(x, axis));
-        finish(p1, p2, ch, expected, &|r| judge(&vals, r, expected, $scan, &|l: &Array<T>| ArraySumProdDiff::$m(l, None), &|lane| native_val(op, lane)))
+        finish(p1, p2, ch, expected, &|r| judge(&vals, r, expected, c.map.as_ref(), c.source, &|l: &Array<T>| ArraySumProdDiff::$m(l, None), &|lane| native_val(op, lane)))
     }} }
     Some(match op {
-        "sum" => red!(sum, false), "prod" => red!(prod, false), "nansum" => red!(nansum, false), "nanprod" => red!(nanprod, false),
-        "cumsum" => red!(cumsum, true), "cumprod" => red!(cumprod, true), "nancumsum" => red!(nancumsum, true), "nancumprod" => red!(nancumprod, true),
+        "sum" => red!(sum), "prod" => red!(prod), "nansum" => red!(nansum), "nanprod" => red!(nanprod),
+        "cumsum" => red!(cumsum), "cumprod" => red!(cumprod), "nancumsum" => red!(nancumsum), "nancumprod" => red!(nancumprod),
         _ => return None,
     })
 }
-
-fn exec(op: &str, args: &[&str], expected: &str) -> Option<Verdict> {
-    if args.len() != 5 { return None; }
+fn dispatch(c: &Case) -> Option<Verdict> {
+    match c.dt {
+        "i64" | "i64b" | "i64r" | "i64n" => run_ops::<i64>(c), "f64" | "f64s" | "f64r" | "f64n" => run_ops::<f64>(c), "f32" => run_ops::<f32>(c),
+        "i8" => run_ops::<i8>(c), "i16" => run_ops::<i16>(c), "i32" => run_ops::<i32>(c),
+        "u64" => run_num::<u64>(c), "usize" => run_num::<usize>(c), "isize" => run_num::<isize>(c),
+        "u8" => run_num::<u8>(c), "u16" => run_num::<u16>(c), "u32" => run_num::<u32>(c),
+        "bool" => run_any::<bool>(c), "str" => run_any::<String>(c),
+        _ => None,
+    }
+}
+struct Parsed<'a> { dt: &'a str, shape: Vec<usize>, axis: Option<isize>, kd: Option<bool>, vseed: u64, by_ref: bool }
+fn parse_case<'a>(op: &str, args: &[&'a str]) -> Option<Parsed<'a>> {
+    if args.len() != 5 && !(args.len() == 6 && args[5] == "ref") { return None; }
     let (shape, _) = parse_arr_raw(args[1]);
     let axis: Option<isize> = parse_opt(args[2]);
     let kd: Option<bool> = match args[3] { "none" => None, "true" => Some(true), _ => Some(false) };
     let vseed: u64 = args[4].parse().ok()?;
-    let dt = args[0];
-    if !applicable(op, dt) { return None; }
-    let c = Case { op, dt, shape, axis, kd, vseed, expected };
-    match dt {
-        "i64" | "i64b" => run_ops::<i64>(&c), "f64" | "f64s" => run_ops::<f64>(&c), "f32" => run_ops::<f32>(&c),
-        "i8" => run_ops::<i8>(&c), "i16" => run_ops::<i16>(&c), "i32" => run_ops::<i32>(&c),
-        "u64" => run_num::<u64>(&c), "usize" => run_num::<usize>(&c), "isize" => run_num::<isize>(&c),
-        "u8" => run_num::<u8>(&c), "u16" => run_num::<u16>(&c), "u32" => run_num::<u32>(&c),
-        "bool" => run_any::<bool>(&c), "str" => run_any::<String>(&c),
-        _ => None,
+    if !applicable(op, args[0]) { return None; }
+    Some(Parsed { dt: args[0], shape, axis, kd, vseed, by_ref: args.len() == 6 })
+}
+fn mism(observed: &str, detail: String) -> Option<Verdict> { Some(Verdict::Mismatch { observed: observed.to_string(), detail }) }
+
+fn exec(op: &str, args: &[&str], expected: &str) -> Option<Verdict> {
+    if op == "refstats" {
+        let (v, u, b, aba) = (REF_VALIDATED.with(Cell::get), REF_USED.with(Cell::get), REF_BROKEN.with(Cell::get), ABA_RUNS.with(Cell::get));
+        let text = format!("ok native lane reference: compared with the model on {v} cases of this run ({b} disagreements), used in place of the model on {u} cases; A-B-A re-runs {aba}");
+        eprintln!("C08 {}", &text[3..]);
+        if expected != "ref" { return None; }
+        return if b > 0 || (u > 0 && v < 1000) { mism(&text, "the native reference was used without (enough) validation against the model in the same run".into()) } else { Some(Verdict::Match(text)) };
     }
+    let pc = parse_case(op, args)?;
+    let fam = family(op);
+    let scan = fam == 'S';
+    let native = native_map(&pc.shape, pc.axis, pc.kd, fam);
+    // which lane map judges the result
+    let (map, source, exp_text): (Option<LaneMap>, &str, String) = if pc.by_ref {
+        if expected != "ref" { return None; }
+        REF_USED.with(|c| c.set(c.get() + 1));
+        match native {
+            Some(Ok(m)) => (Some(m), "the native lane reference", "ok <native lane reference>".to_string()),
+            Some(Err(())) => (None, "the native lane reference", "err AxisOutOfBounds".to_string()),
+            None => return None,
+        }
+    } else {
+        let model = if let Some(body) = expected.strip_prefix("ok ") { match parse_lanes(body, scan) { Some(m) => Some(m), None => return mism("n/a", "unparsable model answer".into()) } } else { None };
+        // the chain model -> native reference: the reference must reproduce the model's answer on every case it has an opinion on
+        if let Some(nat) = &native {
+            let agrees = match (nat, &model) { (Ok(n), Some(m)) => n == m, (Err(()), None) => class_of(expected) == "err", _ => false };
+            REF_VALIDATED.with(|c| c.set(c.get() + 1));
+            if !agrees {
+                REF_BROKEN.with(|c| c.set(c.get() + 1));
+                return mism("n/a", format!("HARNESS: the native lane reference disagrees with the model on this case (model: `{}`)", truncate(expected, 300)));
+            }
+        }
+        (model, "the model", expected.to_string())
+    };
+    let c = Case { op, dt: pc.dt, shape: pc.shape, axis: pc.axis, kd: pc.kd, vseed: pc.vseed, expected: &exp_text, map, source, probe: false };
+    LAST_PLAIN.with(|l| *l.borrow_mut() = None);
+    let v = dispatch(&c)?;
+    // A-B-A: run the previous case again; it must answer exactly as it did before this case ran
+    let n: usize = c.shape.iter().product();
+    let prev = PREV.with(|p| p.borrow_mut().take());
+    let mine = LAST_PLAIN.with(|l| l.borrow_mut().take());
+    let mut verdict = v;
+    if let (Verdict::Match(_), Some((pop, pargs, ptext))) = (&verdict, &prev) {
+        let pa: Vec<&str> = pargs.iter().map(String::as_str).collect();
+        if let Some(pp) = parse_case(pop, &pa) {
+            let pcase = Case { op: pop, dt: pp.dt, shape: pp.shape, axis: pp.axis, kd: pp.kd, vseed: pp.vseed, expected: "", map: None, source: "", probe: true };
+            ABA_RUNS.with(|c| c.set(c.get() + 1));
+            if let Some(Verdict::Match(again)) = dispatch(&pcase) {
+                if &again != ptext {
+                    verdict = Verdict::Mismatch { observed: truncate(&again, 2000), detail: format!("A-B-A: after this case the PREVIOUS case `{pop} {}` answers differently; before: `{}`", pargs.join(" "), truncate(ptext, 600)) };
+                }
+            }
+        }
+    }
+    // remember this case for the next one (cheap cases only: the re-run costs one call)
+    if let (Some(t), true) = (mine, n <= 20000) { PREV.with(|p| *p.borrow_mut() = Some((op.to_string(), args.iter().map(|x| x.to_string()).collect(), t))); }
+    Some(verdict)
 }
 
 /// non-trivial: an axis is given, the array has rank >= 2 and the lane is longer than one
 fn nontrivial(_op: &str, args: &[&str]) -> bool {
+    if args.len() < 5 { return false; }
     let s = parse_arr_raw(args[1]).0;
     if args[2] == "none" || s.len() < 2 { return false; }
     let ax: isize = args[2].parse().unwrap_or(0);
@@ -510,5 +858,7 @@ fn nontrivial(_op: &str, args: &[&str]) -> bool {
 
 fn main() {
     harness_main(Spec { prop: "C08", gen, exec, nontrivial, hang_secs: 60,
-        rule: "17 operations (10 reductions, count_nonzero/argmax/argmin x keepdims none/true/false, 4 scans) x every shape rank<=4 len<=3 (thorough: + rank 5 len<=2) x every axis in both spellings and `none` x i64 / f64 values (f64 with NaN, +-inf, +-0, subnormal, huge), out-of-range axes, seeded random rank 5-6; robustness streams: 14 further element types / value classes (i64 and u64/usize/isize beyond 2^53 and next to the ends of the type, i8/i16/i32/u8/u16/u32 next to their ends, f64 subnormals and NaN first/last/random, f32, bool, String) on every shape rank<=3 and every axis; every zero-length shape x every axis incl. out-of-range; big_shapes (axis lengths 7-17 in every position, > 256 / 1024 / 4096 elements); lanes of 4100 elements with repeated extremes; random shapes with one axis of 7-17. Oracles: per output position the model names the lane; (a) the same real operation with axis=None on that lane must give the bit-identical value, (b) a plain-Rust reference over the lane values (exact integer sum/product/running totals, max/min with NaN rules, count of non-zeros, FIRST position of the extreme) must agree; every case is run twice on the plain receiver and once on Ok(array) through the Result-receiver impl, all three must answer alike. non-trivial = rank>=2, axis given, lane longer than 1" });
+        rule: RULE });
 }
+
+const RULE: &str = "17 operations (10 reductions, count_nonzero/argmax/argmin x keepdims none/true/false, 4 scans) x every shape rank<=4 len<=3 (thorough: + rank 5 len<=2) x every axis in both spellings and `none` x i64 / f64 values (f64 with NaN, +-inf, +-0, subnormal, huge), out-of-range axes, seeded random rank 5-6; robustness streams: 14 further element types / value classes (i64 and u64/usize/isize beyond 2^53 and next to the ends of the type, i8/i16/i32/u8/u16/u32 next to their ends, f64 subnormals and NaN first/last/random, f32, bool, String) on every shape rank<=3 and every axis; every zero-length shape x every axis incl. out-of-range; big_shapes (axis lengths 7-17 in every position, > 256 / 1024 / 4096 elements); lanes of 4100 elements with repeated extremes; random shapes with one axis of 7-17. Oracles: per output position the model names the lane; (a) the same real operation with axis=None on that lane must give the bit-identical value, (b) a plain-Rust reference over the lane values (exact integer sum/product/running totals, max/min with NaN rules, count of non-zeros, FIRST position of the extreme) must agree; every case is run twice on the plain receiver and once on Ok(array) through the Result-receiver impl, all three must answer alike. non-trivial = rank>=2, axis given, lane longer than 1";
